@@ -123,6 +123,68 @@ def wide_fan_cases(ctx, replay=None):
     return {"violations": viol, "disagreements": [], "coverage": {"wide_fan_runs": done}}
 
 
+def retry_parallel_cases(ctx, replay=None):
+    """`retry` does not cost parallelism: W independent calls (or store writes) that each fail their first attempt, `retry=2`,
+    `max_workers=W` - the SECOND attempts meet at a W-party barrier (five seconds): all of them must be executing at once."""
+    import threading
+
+    import uberjob
+    viol, done = [], 0
+    for kind, w in ([replay["retry_case"]] if replay else [["call", 4], ["write", 3]]):
+        barrier = threading.Barrier(w)
+        attempts, met, lock = {}, [], threading.Lock()
+
+        def flaky(i):
+            with lock:
+                attempts[i] = attempts.get(i, 0) + 1
+                n = attempts[i]
+            if n == 1:
+                raise OSError("first attempt of %d fails" % i)
+            try:
+                barrier.wait(timeout=5)
+                with lock:
+                    met.append(i)
+            except threading.BrokenBarrierError:
+                pass
+            return i
+
+        class Store(uberjob.ValueStore):
+            def __init__(self, i):
+                self.i, self.v = i, None
+
+            def read(self):
+                return self.v
+
+            def write(self, value):
+                flaky(self.i)
+                self.v = value
+
+            def get_modified_time(self):
+                return None
+
+        plan, reg = uberjob.Plan(), uberjob.Registry()
+        if kind == "call":
+            outs = [plan.call(flaky, i) for i in range(w)]
+        else:
+            outs = []
+            for i in range(w):
+                nd = plan.call(lambda i=i: i)
+                reg.add(nd, Store(i))
+                outs.append(nd)
+        try:
+            uberjob.run(plan, registry=reg if kind == "write" else None, output=outs, retry=2, max_workers=w, progress=None)
+            err = None
+        except Exception as e:      # noqa: BLE001
+            err = e
+        done += 1
+        if err is not None or len(met) != w:
+            viol.append({"property": "C10", "what": f"retry=2, max_workers={w}, {w} independent {kind}s whose first attempt fails: only {len(met)} of the {w} second "
+                         f"attempts were executing at once" + (f" (run raised {err!r})" if err is not None else ""),
+                         "replay_fn": "retry_parallel", "retry_case": [kind, w]})
+            break
+    return {"violations": viol, "disagreements": [], "coverage": {"retry_parallel_cases": done}}
+
+
 def parallel_runs(ctx, replay=None):
     """`whenever at least max_workers independent calls are ready that many do run in parallel` and never more."""
     if replay is not None:
@@ -236,6 +298,9 @@ def extras(ctx, replay=None):
         if replay.get("replay_fn") == "stale_check":
             r = stale_check_runs(ctx, replay=replay)
             return r["violations"][0]["what"] if r["violations"] else None
+        if replay.get("replay_fn") == "retry_parallel":
+            r = retry_parallel_cases(ctx, replay=replay)
+            return r["violations"][0]["what"] if r["violations"] else None
         if replay.get("replay_fn") == "wide_fan":
             r = wide_fan_cases(ctx, replay=replay)
             return r["violations"][0]["what"] if r["violations"] else None
@@ -249,6 +314,10 @@ def extras(ctx, replay=None):
         wf = wide_fan_cases(ctx)
         a["violations"] += wf["violations"]
         a["coverage"].update(wf["coverage"])
+    if not a["violations"]:
+        rp = retry_parallel_cases(ctx)
+        a["violations"] += rp["violations"]
+        a["coverage"].update(rp["coverage"])
     b = retry_corr.retry_diff(ctx)
     cov = dict(a.get("coverage", {}))
     cov.update({"retry_" + k: v for k, v in b.get("coverage", {}).items() if k not in ("samples", "rule")})
